@@ -88,7 +88,7 @@ func genConfig(p *pkgInfo) string {
 		panic("validateConfig: unexpected signature")
 	}
 	param := fn.Type.Params.List[0].Names[0].Name
-	c := &compiler{fset: p.fset, d: &cfgDialect{param: param}, types: map[string]string{}}
+	c := &compiler{fset: p.fset, d: &cfgDialect{param: param}, types: map[string]string{}, funcs: p.funcs, pkgConsts: p.consts, pkgVars: p.vars}
 	for _, f := range cfgFields {
 		c.types[param+"."+f.name] = f.coq
 	}
